@@ -63,6 +63,30 @@ def nontrivial(lib, target):
     return (deep or inherited) and bool(eqs)
 
 
+def shape(ctx, lib, target):
+    """Distribution buckets: depth, repeated instances, multiple extends, arrays, local / package classes."""
+    orc = a05.Oracle(lib)
+    items = list(orc.instances(tuple(target.split("."))))
+    leaves = [it for it in items if it[0] == "leaf"]
+    insts = [it[2] for it in items if it[0] == "inst"]
+    ctx.count("depth-%d" % max([len(it[1]) for it in leaves] or [0]))
+    if len(set(insts)) < len(insts):
+        ctx.count("several-instances-of-one-class")
+    if any(len(orc.ext_list(c)) > 1 for c in set(insts)):
+        ctx.count("multiple-extends")
+    if any(orc.ext_list(b) for c in set(insts) for b, _ in orc.ext_list(c)):
+        ctx.count("extends-chain")
+    if any(len(b) < len(c) or b[:len(c) - 1] != c[:-1] for c in set(insts) for b, _ in orc.ext_list(c)):
+        ctx.count("base-from-other-scope")
+    if any(len(c) > 1 for c in set(insts)):
+        ctx.count("nested-or-packaged-class")
+    if any(it[4] for it in leaves):
+        ctx.count("array-leaf")
+    if any(it[5] for it in leaves):
+        ctx.count("type-definition-leaf")
+    ctx.count("leaves-%s" % ("1-5" if len(leaves) <= 5 else "6-15" if len(leaves) <= 15 else "16+"))
+
+
 def check_case(ctx, case, drv, stream="main"):
     """One library: real code, direct oracle, Lean model."""
     lib, target = case["lib"], case["target"]
@@ -74,6 +98,8 @@ def check_case(ctx, case, drv, stream="main"):
             raise HarnessError("model driver rejected the description: %s" % json.dumps(ans)[:300])
         if ans["text"] != text:
             raise HarnessError("the two renderers of the description disagree:\n%s\n---\n%s" % (ans["text"], text))
+        if ans.get("err") == "fuel":
+            ctx.disagreement("model-out-of-fuel", dict(case, text=text), "fuel", None)
         model = norm(ans)
     obs = a05.py_flatten(text, target)
     rep = dict(case, text=text)
@@ -134,6 +160,7 @@ def run(ctx):
         nt = nontrivial(case["lib"], case["target"])
         ctx.case(case, nontrivial=nt)
         ctx.count("classes-%d" % sum(1 for _ in a05.Index(case["lib"]).cls))
+        shape(ctx, case["lib"], case["target"])
         check_case(ctx, case, drv, "main")
     ctx.extra["main_cases"] = done_main
     ctx.extra["finding_stream_cases"] = done_find
@@ -155,8 +182,10 @@ def search(ctx):
 
 
 def replay(ctx, payload):
-    c = payload["case"]
-    check_case(ctx, dict(lib=c["lib"], target=c["target"]), ctx.driver("drv_c07"), "replay")
+    cases = [payload["case"]] if "case" in payload else [d["case"] for d in payload.get("details", []) if "case" in d]
+    for c in cases:
+        ctx.case({"lib": c["lib"], "target": c["target"]}, nontrivial=True)
+        check_case(ctx, dict(lib=c["lib"], target=c["target"]), ctx.driver("drv_c07"), "replay")
 
 
 MANIFEST = dict(
@@ -169,4 +198,4 @@ MANIFEST = dict(
                "Modelica meaning of the subset. The reference, not the Python, is what the theorems are about.",
     technique="Lean 4 proof (induction over the instance tree) + reference/implementation correspondence",
 )
-READY = False
+READY = True
